@@ -111,6 +111,8 @@ func (h *H) bands(mult int) {
 				for i := 0; i < nops; i++ {
 					n := len(a.GetUplinkChannelIndices())
 					func() {
+						cases.Begin(fmt.Sprintf("band %s operation %d", name, i), map[string]interface{}{"history": hist})
+						defer cases.End()
 						defer func() { recover() }()
 						op := r.Intn(4)
 						if i == 0 && n > 0 { // always start by disabling an existing channel in place
